@@ -14,6 +14,11 @@ pub enum Tok {
     F64(u64),
     U64(u64),
     I64(i64),
+    F32(u32),
+    Bool(bool),
+    Unit,
+    None,
+    Some,
 }
 
 #[derive(Clone, Copy)]
@@ -71,20 +76,20 @@ impl<'a, 'b> ser::Serializer for &'b mut Ser<'a> {
     fn serialize_tuple(self, len: usize) -> Result<Self, Error> { self.tape.push(Tok::Tuple(len))?; Ok(self) }
 
     fn collect_str<T: ?Sized + core::fmt::Display>(self, _v: &T) -> Result<(), Error> { Err(Error) }
-    fn serialize_bool(self, _v: bool) -> Result<(), Error> { Err(Error) }
-    fn serialize_i8(self, _v: i8) -> Result<(), Error> { Err(Error) }
-    fn serialize_i16(self, _v: i16) -> Result<(), Error> { Err(Error) }
-    fn serialize_i32(self, _v: i32) -> Result<(), Error> { Err(Error) }
-    fn serialize_u8(self, _v: u8) -> Result<(), Error> { Err(Error) }
-    fn serialize_u16(self, _v: u16) -> Result<(), Error> { Err(Error) }
-    fn serialize_u32(self, _v: u32) -> Result<(), Error> { Err(Error) }
-    fn serialize_f32(self, _v: f32) -> Result<(), Error> { Err(Error) }
+    fn serialize_bool(self, v: bool) -> Result<(), Error> { self.tape.push(Tok::Bool(v)) }
+    fn serialize_i8(self, v: i8) -> Result<(), Error> { self.tape.push(Tok::I64(v as i64)) }
+    fn serialize_i16(self, v: i16) -> Result<(), Error> { self.tape.push(Tok::I64(v as i64)) }
+    fn serialize_i32(self, v: i32) -> Result<(), Error> { self.tape.push(Tok::I64(v as i64)) }
+    fn serialize_u8(self, v: u8) -> Result<(), Error> { self.tape.push(Tok::U64(v as u64)) }
+    fn serialize_u16(self, v: u16) -> Result<(), Error> { self.tape.push(Tok::U64(v as u64)) }
+    fn serialize_u32(self, v: u32) -> Result<(), Error> { self.tape.push(Tok::U64(v as u64)) }
+    fn serialize_f32(self, v: f32) -> Result<(), Error> { self.tape.push(Tok::F32(v.to_bits())) }
     fn serialize_char(self, _v: char) -> Result<(), Error> { Err(Error) }
     fn serialize_str(self, _v: &str) -> Result<(), Error> { Err(Error) }
     fn serialize_bytes(self, _v: &[u8]) -> Result<(), Error> { Err(Error) }
-    fn serialize_none(self) -> Result<(), Error> { Err(Error) }
-    fn serialize_some<T: ?Sized + Serialize>(self, _v: &T) -> Result<(), Error> { Err(Error) }
-    fn serialize_unit(self) -> Result<(), Error> { Err(Error) }
+    fn serialize_none(self) -> Result<(), Error> { self.tape.push(Tok::None) }
+    fn serialize_some<T: ?Sized + Serialize>(self, v: &T) -> Result<(), Error> { self.tape.push(Tok::Some)?; v.serialize(self) }
+    fn serialize_unit(self) -> Result<(), Error> { self.tape.push(Tok::Unit) }
     fn serialize_unit_struct(self, _n: &'static str) -> Result<(), Error> { Err(Error) }
     fn serialize_unit_variant(self, _n: &'static str, _i: u32, _v: &'static str) -> Result<(), Error> { Err(Error) }
     fn serialize_newtype_struct<T: ?Sized + Serialize>(self, _n: &'static str, v: &T) -> Result<(), Error> { v.serialize(self) }
@@ -144,6 +149,24 @@ impl<'de, 'a, 'b> de::Deserializer<'de> for &'b mut De<'a> {
     fn deserialize_i64<V: Visitor<'de>>(self, v: V) -> Result<V::Value, Error> {
         match self.next()? { Tok::I64(b) => v.visit_i64(b), _ => Err(Error) }
     }
+    fn deserialize_f32<V: Visitor<'de>>(self, v: V) -> Result<V::Value, Error> {
+        match self.next()? { Tok::F32(b) => v.visit_f32(f32::from_bits(b)), _ => Err(Error) }
+    }
+    fn deserialize_bool<V: Visitor<'de>>(self, v: V) -> Result<V::Value, Error> {
+        match self.next()? { Tok::Bool(b) => v.visit_bool(b), _ => Err(Error) }
+    }
+    fn deserialize_u8<V: Visitor<'de>>(self, v: V) -> Result<V::Value, Error> { self.deserialize_u64(v) }
+    fn deserialize_u16<V: Visitor<'de>>(self, v: V) -> Result<V::Value, Error> { self.deserialize_u64(v) }
+    fn deserialize_u32<V: Visitor<'de>>(self, v: V) -> Result<V::Value, Error> { self.deserialize_u64(v) }
+    fn deserialize_i8<V: Visitor<'de>>(self, v: V) -> Result<V::Value, Error> { self.deserialize_i64(v) }
+    fn deserialize_i16<V: Visitor<'de>>(self, v: V) -> Result<V::Value, Error> { self.deserialize_i64(v) }
+    fn deserialize_i32<V: Visitor<'de>>(self, v: V) -> Result<V::Value, Error> { self.deserialize_i64(v) }
+    fn deserialize_unit<V: Visitor<'de>>(self, v: V) -> Result<V::Value, Error> {
+        match self.next()? { Tok::Unit => v.visit_unit(), _ => Err(Error) }
+    }
+    fn deserialize_option<V: Visitor<'de>>(self, v: V) -> Result<V::Value, Error> {
+        match self.next()? { Tok::None => v.visit_none(), Tok::Some => v.visit_some(self), _ => Err(Error) }
+    }
     fn deserialize_struct<V: Visitor<'de>>(self, _name: &'static str, _fields: &'static [&'static str], v: V) -> Result<V::Value, Error> {
         match self.next()? {
             Tok::Struct(_, n) => v.visit_map(Fields { de: self, left: n }),
@@ -161,7 +184,7 @@ impl<'de, 'a, 'b> de::Deserializer<'de> for &'b mut De<'a> {
     }
     fn deserialize_newtype_struct<V: Visitor<'de>>(self, _n: &'static str, v: V) -> Result<V::Value, Error> { v.visit_newtype_struct(self) }
     serde::forward_to_deserialize_any! {
-        bool i8 i16 i32 u8 u16 u32 f32 char str string bytes byte_buf option unit unit_struct seq tuple_struct map enum ignored_any
+        char str string bytes byte_buf unit_struct seq tuple_struct map enum ignored_any
     }
 }
 
